@@ -4,6 +4,8 @@ from vlib import *  # noqa
 
 # property -> (family cfg, rule prefixes judged by this check, ops that must have been exercised successfully)
 FAMILY = {
+    "C09": dict(fam="code", focus="all", prefixes=("C09.",), need=[("CodeExchange", "tokens"), ("CodeExchange", "json"), ("UserInfo", "claims"), ("TokenExchange", "json")]),
+    "C11": dict(fam="authorize", focus="authorize", prefixes=("C11.",), need=[("Authorize", "redirErr"), ("Callback", "code"), ("Callback", "tokens"), ("Callback", "redirErr")]),
     "C10": dict(fam="code", focus="faults", prefixes=("C10.",), need=[("CodeExchange", "tokens"), ("CodeExchange", "json"), ("Refresh", "json"), ("UserInfo", "claims")]),
     "C06": dict(fam="issue", prefixes=("C06.",), need=[("Callback", "tokens"), ("CodeExchange", "tokens"), ("Refresh", "tokens"), ("Poll", "tokens"),
                                                       ("ClientCreds", "tokens"), ("JWTBearer", "tokens"), ("TokenExchange", "tokens")]),
@@ -226,4 +228,4 @@ def op_replay(pid, wd, path, spec):
     return 0
 
 
-CHECKS = {p: op_check for p in FAMILY if p not in ('C03', 'C10')}   # C03 is composed in tables.py
+CHECKS = {p: op_check for p in FAMILY if p not in ('C03', 'C10', 'C09', 'C11')}   # C03 is composed in tables.py
